@@ -233,7 +233,10 @@ class Batch:
         self.hcache = {}
         self.stats = {"triples": 0, "matched": 0, "root_op_mismatch": 0, "or_committed_choice": 0,
                       "multi_instance": 0, "raises": 0, "not_removable": 0, "compared_in_coq": 0, "nested_hosts": 0,
-                      "commute_pairs": 0}
+                      "commute_pairs": 0, "committed_compared": 0, "committed_or_triples": 0, "committed_multi_root_triples": 0,
+                      "committed_matches": 0, "committed_skipped": 0}
+        self.fcomb = {}         # feature combination -> [triples, matches reported]
+        self.theorem_feats = {}  # feature (of the theorems' case split) -> [triples, matches reported, non-matches with an operator-matching root]
 
     def pattern(self, pdesc, commute):
         k = (json.dumps(pdesc, sort_keys=True), commute)
@@ -307,6 +310,31 @@ class Batch:
                             self.stats["not_removable"] += 1
                     if len(insts) > 1:
                         self.stats["multi_instance"] += 1
+                # ---- the committed-choice meaning (coq/Match/Committed.v), evaluated independently from the description
+                if commute:
+                    cm = c06_spec.committed_match_variants(rp.spec_variants, H, root, rm)
+                else:
+                    cm = c06_spec.committed_match(P_spec, H, roots_spec, root, rm)
+                if cm == "err" or obs[0] == "raise":
+                    cdev = False
+                    self.stats["committed_skipped"] += 1
+                else:
+                    self.stats["committed_compared"] += 1
+                    self.stats["committed_or_triples"] += "or" in feats
+                    self.stats["committed_multi_root_triples"] += "multi-root" in feats
+                    self.stats["committed_matches"] += cm is not None
+                    if obs[0] == "ok":
+                        cdev = cm is None or cm["bindings"] != obs[2] or cm["nodes"] != obs[3] or cm["outs"] != obs[4]
+                    else:
+                        cdev = cm is not None
+                fc = self.fcomb.setdefault(fkey, [0, 0])
+                fc[0] += 1
+                fc[1] += obs[0] == "ok"
+                for ft in (feats or ["plain"]):
+                    tf = self.theorem_feats.setdefault(ft, [0, 0, 0])
+                    tf[0] += 1
+                    tf[1] += obs[0] == "ok"
+                    tf[2] += (obs[0] == "fail" and not trivial)
                 sigma = None
                 verdict = None
                 if obs[0] == "ok":
@@ -324,8 +352,8 @@ class Batch:
                     verdict = "raises"
                 if not trivial:
                     ctx.case((fkey, obs[0], verdict, rm, min(len(insts), 2)))
-                if verdict is None and ctx.rng.random() >= coq_rate:
-                    continue                   # agreement with the spec; the model comparison is sampled
+                if verdict is None and not cdev and ctx.rng.random() >= coq_rate:
+                    continue                   # agreement with both meanings; the model comparison is sampled
                 if rp.coq_name is None:
                     rp.coq_name = f"p{self.npat}"
                     self.npat += 1
@@ -340,7 +368,9 @@ class Batch:
                     f"(mkCase {rp.coq_name} {clist(rp.abstract['roots'], cnat)} {rh.coq_name} {cnat(root)} {cbool(rm)} "
                     f"{cbool(commute)} {c_obs(obs)} {copt(sigma)})")
                 self.meta.append({"p": pdesc, "h": hdesc, "root": root, "rm": rm, "commute": commute, "obs": obs,
-                                  "n_instances": len(insts), "verdict": verdict,
+                                  "n_instances": len(insts), "verdict": verdict, "committed_deviates": cdev,
+                                  "committed": None if cm is None else (cm if cm == "err" else
+                                                                          {"bindings": sorted(cm["bindings"].items()), "nodes": cm["nodes"], "outs": cm["outs"]}),
                                   "features": feats, "or": "or" in feats, "tag": tag,
                                   "instances": [{"bindings": sorted(i["bindings"].items()), "nodes": sorted(i["nodes"]), "outs": i["outs"]}
                                                 for i in insts[:3]]})
@@ -395,7 +425,7 @@ def _eval_shards(ctx, requires, bodies, par=8, timeout=900):
 
 
 def _replay(m):
-    return {k: m.get(k) for k in ("p", "h", "root", "rm", "commute", "obs", "instances", "features", "mask")}
+    return {k: m.get(k) for k in ("p", "h", "root", "rm", "commute", "obs", "instances", "committed", "features", "mask")}
 
 
 COMMUTE_NONBINARY_KEY = "C06:commute:commutative-op-not-binary:AssertionError"
@@ -404,7 +434,20 @@ OUT_KEY = "C06:pattern-node-with-more-outputs-than-graph-node:match-reported"
 
 
 ITER_KEY = "C06:several-output-nodes-without-op-identifier:shared-node-iterator:match-missed"
+ATTR_TYPE_KEY = "C06:attr-constant-scalar-vs-list-attribute:TypeError"
+
+
+def _scalar_attr_vs_list(m):
+    """some constant attribute pattern with a scalar (non-string) value meets a list-valued attribute of the same name in the host"""
+    for nd in m["p"]["nodes"]:
+        for name, a in nd.get("attrs", []):
+            if a[0] == "c" and not isinstance(a[1], (list, tuple, str)):
+                for hn in c06_pat.all_nodes(m["h"]):
+                    if any(n == name and isinstance(val, (list, tuple)) for n, val in hn.get("attrs", [])):
+                        return True
+    return False
 FULL = 65535
+ATTR_SENSITIVE = 262144   # bit 18: a scalar constant attribute pattern meets a list attribute; bits 19..34: the mask without the attribute repair
 # bit k of the mask <-> flags (fresh_iter, out_fail, keep_vb, keep_nb) = bits 3..0 of k
 M_OUT0 = sum(1 << k for k in range(16) if not k & 4)        # settings with out_fail = false
 M_MERGE0 = sum(1 << k for k in range(16) if (k & 3) != 3)   # settings in which merge drops something
@@ -424,10 +467,22 @@ def decide(ctx, batch, codes):
             ctx.violation(key, what, replay)
 
     flag_mask = FULL
+    attr_as_read = 0            # cases explained only by the model WITHOUT the attribute repair (scalar pattern vs list attribute raises)
+    attr_sensitive = 0
     for i, m in enumerate(meta):
-        k = codes.get(i, FULL) & FULL
+        code = codes.get(i, FULL)
+        k = code & FULL
+        if code & ATTR_SENSITIVE:
+            attr_sensitive += 1
+            ka = (code >> 19) & FULL
+            if k == 0 and ka:
+                attr_as_read += 1
+                k = ka
         if k:
             flag_mask &= k
+    batch.stats["attr_scalar_vs_list_cases"] = attr_sensitive
+    batch.stats["attr_scalar_vs_list_cases_raising"] = attr_as_read
+    batch.attr_fix = attr_as_read == 0
     if flag_mask == 0:
         ctx.tie_broken("correspondence", "merge-flags", "no single setting of (fresh_iter, out_fail, keep_vb, keep_nb) agrees with the implementation on all cases")
         flag_mask = FULL
@@ -466,13 +521,23 @@ def decide(ctx, batch, codes):
             elif sens_merge:
                 ctx.violation(F16_KEY_MISSED, "an instance is not matched: PartialMatchResult.merge drops bindings of a successful OR "
                               "alternative", _replay(m))
-            elif m["or"] and agree_impl:
-                # the model (proved sound, and complete without OR) misses it too: the committed choice of OR
+            elif m["or"] and agree_impl and not m.get("committed_deviates"):
+                # no match under the committed-choice meaning either (C06_match_iff_committed; evaluated independently
+                # from the description and by the model): the documented committed choice of OR, not a deviation
                 batch.stats["or_committed_choice"] += 1
             else:
                 violation("missed", f"C06:instance-not-matched:{fk}", "the subgraph is an instance of the pattern but no match is reported", _replay(m))
+        elif v == "raises" and m["obs"][1] == "TypeError" and _scalar_attr_vs_list(m):
+            ctx.violation(ATTR_TYPE_KEY, "Pattern.match raises TypeError instead of reporting no match: AttrConstantPattern.matches evaluates "
+                          "tuple(<scalar pattern value>) when the node's attribute of that name is list-valued", _replay(m))
         elif v == "raises":
             violation("raises", f"C06:matcher-raises:{m['obs'][1]}:{fk}", "the matcher raises instead of reporting match / no match", _replay(m))
+        elif m.get("committed_deviates"):
+            # the result is an instance of the unordered meaning, but not the one the committed-choice meaning determines
+            # (another alternative / candidate tuple / variant, other bindings or node order)
+            violation("committed", f"C06:committed-choice-meaning-deviation:{fk}", "the matcher's result differs from the committed-choice meaning of the "
+                      "pattern (first alternative that matches, first candidate tuple, first variant): verdict, bindings, node order or outputs",
+                      _replay(m))
         elif not agree_impl:
             # spec and implementation agree on this case but the model does not: the tie is broken
             ctx.tie_broken("correspondence", f"model-vs-matcher:{fk}", json.dumps(_replay(m), default=str)[:1500])
@@ -483,8 +548,10 @@ def run(ctx):
     ctx.assume("node-level and value-level `check` callables and the rule's condition function are outside the model (run after the structural match)")
     ctx.assume("pattern outputs: a pattern node with k outputs matches nodes with at least k outputs (as implemented and relied upon by the shipped "
                "rules; outputs_option.md words it as 'exactly'); not flagged")
-    ctx.assume("OrValue is committed-choice (first alternative that matches locally; later conflicts do not re-open it), as documented in "
-               "node_value_checkers.md; instances missed only for that reason are counted (or_committed_choice) and not flagged")
+    ctx.assume("OrValue is committed-choice (first alternative that matches from the bindings made so far; later conflicts do not re-open it), as "
+               "documented in node_value_checkers.md: coq/Match/Committed.v, proved equal to the matcher model (C06_match_iff_committed) and evaluated "
+               "independently from the pattern description on every triple (verdict, bindings, node order, outputs must coincide); instances of the "
+               "unordered meaning that are not matched for that reason alone are counted (or_committed_choice)")
     ctx.assume("tag variables of OR patterns are fresh names; constants are float32 scalars / 1-D lists away from the tolerance boundary")
     ctx.check_props(extra_files=["Match/Corr.v"])
     import time
@@ -531,6 +598,8 @@ def run(ctx):
         uncovered.append(f"merge keeps value_bindings={keeps[0]}, node_bindings={keeps[1]}")
     if not keeps[2] and not out_explained:
         uncovered.append("an output-count mismatch is not recorded as a failure")
+    if not batch.attr_fix and ATTR_TYPE_KEY not in seen:
+        uncovered.append("a scalar constant attribute pattern against a list attribute behaves as without the attribute repair")
     ctx.obligation("C06_match_sound applies to the setting of the flags the implementation exhibits (or the deviation is a reported finding)",
                    not uncovered, "; ".join(uncovered))
     if uncovered:
@@ -538,7 +607,13 @@ def run(ctx):
                        ", for which soundness is not proved, and no non-instance was found in this run")
     ctx.cover(pattern_host_pairs=n, patterns_refused_by_api=refused, merge_keeps_value_bindings=keeps[0], merge_keeps_node_bindings=keeps[1],
               output_count_failure_recorded=keeps[2], own_node_list_per_output_node=keeps[3],
+              scalar_attr_pattern_vs_list_attr_is_no_match=batch.attr_fix,
               match_sound_applies_to_implementation=all(keeps[:3]), **batch.stats)
+    ctx.cover(feature_combinations={k: {"triples": v[0], "matched": v[1]} for k, v in sorted(batch.fcomb.items(), key=lambda kv: -kv[1][0])},
+              features_of_the_theorems={k: {"triples": v[0], "matched": v[1], "not_matched_with_operator_matching_root": v[2]}
+                                        for k, v in sorted(batch.theorem_feats.items())},
+              feature_combinations_distinct=len(batch.fcomb),
+              feature_combinations_with_a_match=sum(1 for v in batch.fcomb.values() if v[1]))
     ctx.cover(generator="corpus/C06 (findings, feature cases) + bounded-exhaustive family (351 patterns with <=3 node patterns over "
               "{Relu/Neg, Add, Sub, Split} x {repeated var, const, any, attr const/var/optional, allow_other_inputs/attributes, None / optional "
               "input, domain, named / 2 outputs, several output nodes, OrValue dispatch/backtracking/name/tag} x all hosts with <=2 nodes, sampled "
@@ -547,7 +622,8 @@ def run(ctx):
               "pattern and perturbed + hosts inside an If branch using outer values + commute=True; every node as root, with and without the "
               "removability check; non-trivial key = (features, outcome, verdict, removability, number of instances)")
     ctx.trust("harness/c06_spec.py: brute-force evaluation of the declarative meaning (enumeration of all node maps, cross-checked against a "
-              "nondeterministic search and, for every reported match, against the Coq instance checker)")
+              "nondeterministic search and, for every reported match, against the Coq instance checker) and a direct evaluator of the "
+              "committed-choice meaning (cross-checked against the Coq model through the correspondence: both must agree with the matcher)")
     for m in batch.meta[:: max(1, len(batch.meta) // 5)][:5]:
         ctx.sample({"pattern": m["p"], "host": m["h"], "root": m["root"], "removable": m["rm"], "observed": m["obs"][0]})
     if ctx.tier == "thorough":
